@@ -24,6 +24,7 @@ import (
 	"os"
 	"sort"
 	"strings"
+	"sync"
 )
 
 type textEdit struct {
@@ -1400,6 +1401,7 @@ func sigString(fn *types.Func) string {
 
 // funcAlias lets calleeKey report a renamed function under the name the rules know.
 var funcAlias = map[*types.Func]string{}
+var funcAliasMu sync.RWMutex
 
 // aliasRenamed: a pinned function that is gone and exactly one new function of the same package, receiver
 // and signature — and no other candidate either way — are taken to be the same function under a new name.
@@ -1461,7 +1463,9 @@ func (w *World) aliasRenamed() {
 		f.Name = old
 		w.Funcs[old] = f
 		w.aliased[f] = true
+		funcAliasMu.Lock()
 		funcAlias[f.Obj] = old[strings.LastIndex(old, ".")+1:]
+		funcAliasMu.Unlock()
 		if w.aliasShort == nil {
 			w.aliasShort = map[string]string{}
 		}
@@ -1621,7 +1625,10 @@ func (w *World) opaque(f *Func) string {
 			}
 			switch o := info.ObjectOf(id).(type) {
 			case *types.TypeName:
-				if o.Pkg() != nil && pkgKey(o.Pkg().Path()) != "" && o.Parent() == o.Pkg().Scope() {
+				// a new type of the function's OWN package is what a refactoring introduces to carry the data the
+				// rules follow; a new type of another package (a new statement or expression node the function
+				// merely has an arm for) does not hide anything the rules look at
+				if o.Pkg() != nil && o.Pkg() == f.Pkg.Types && o.Parent() == o.Pkg().Scope() {
 					if !pinnedTypes[pkgKey(o.Pkg().Path())+"."+o.Name()] {
 						why = "uses the type " + o.Name() + ", which the rules have never seen"
 					}
